@@ -78,8 +78,9 @@ def obLane (id : Nat) : Nat :=
   else 21 + id % 0x58
 def ibLane (id : Nat) : Nat := id % 32
 def obConnectorInput (id : Nat) : Nat := id % 8
-/-- `is_lane_active`: `active_lanes & (1 << lane) != 0` (lane < 32 at all call sites) -/
-def laneActive (lane lanes : Nat) : Bool := lanes / 2^lane % 2 == 1
+/-- `is_lane_active`: `active_lanes & (1u32 << lane) != 0`; release profile: the shift amount is
+    taken modulo 32 (reachable only for the invalid OB ids 0x47/0x4F/0x57 whose "lane" is ≥ 32) -/
+def laneActive (lane lanes : Nat) : Bool := lanes / 2^(lane % 32) % 2 == 1
 
 /-- codes reported for a word handled as a *data word* by `preprocess_data_word`
     (the non-CDW branch), given the active lanes of the governing IHW and whether running
